@@ -135,6 +135,21 @@ Theorem C13_join_split_inverse : forall (Ch : Type) (ceqb : Ch -> Ch -> bool),
 Proof. exact join_split_inverse. Qed.
 Print Assumptions C13_join_split_inverse.
 
+(* split ... by n: no piece for n = 0; otherwise at most n pieces that still join to the string, the
+   first n-1 of them are the first n-1 pieces of the plain split, and when the plain split has at
+   most n pieces it is the plain split *)
+Theorem C13_splitn_spec : forall (Ch : Type) (ceqb : Ch -> Ch -> bool),
+  (forall a b, ceqb a b = true <-> a = b) ->
+  forall sep n s, sep <> [] ->
+    match n with
+    | 0 => sl_splitn ceqb sep 0 s = Some []
+    | S k => exists ps, sl_splitn ceqb sep n s = Some ps /\ ps <> [] /\ length ps <= n /\ sl_join sep ps = s /\
+             (forall qs, sl_split ceqb sep s = Some qs -> length qs <= n -> ps = qs) /\
+             firstn k ps = firstn k (split_go ceqb sep 0 [] s)
+    end.
+Proof. exact splitn_spec. Qed.
+Print Assumptions C13_splitn_spec.
+
 (* lines(s): no line contains the newline character; joining the lines with newlines reproduces s,
    up to the single trailing newline that is ignored. The statement is for an arbitrary character
    type and newline character: every other character ("\r" included) is ordinary *)
@@ -307,6 +322,7 @@ Example C13_nonvacuous :
   sl_permutations [7; 8; 9] = map (map (fun i => nth i [7; 8; 9] 0)) (filter nodupb (sl_cartesian_power (seq 0 3) 3)) /\
   sl_combinations [7; 8; 9] 2 = [[7; 8]; [7; 9]; [8; 9]] /\
   nth 5 (sl_subsequences [7; 8; 9]) [] = [7; 9] /\ mask_select (bits 3 5) [7; 8; 9] = [7; 9] /\
+  sl_splitn Nat.eqb [0] 2 [1; 0; 2; 0; 3] = Some [[1]; [2; 0; 3]] /\
   sl_lines Nat.eqb 0 [1; 13; 0; 2; 13; 0] = [[1; 13]; [2; 13]] /\ sl_lines Nat.eqb 0 [1; 0; 0] = [[1]; []] /\
   sl_extremum (fun b r => negb (Nat.leb r b)) [3; 1; 2; 1] = Some 1 /\
   sl_locate Nat.even [1; 3; 4; 6] = Some 2 /\ sl_take_while Nat.odd [1; 3; 4; 5] = [1; 3] /\
